@@ -28,7 +28,10 @@ def explicit(e, skip):
 def describe(e, ign, where, klass):
     decls, pats = IGNS[ign]
     aux = 'X = "a" | "ba"'
-    if klass:
+    if klass == 'let':
+        # the first member of the start class is an omitted constant member: ignorable text is skipped before IT
+        body = f'class Start {{\n  let t: "b"\n  x: {G.render(e)}\n  y: Opt("b")\n}}'
+    elif klass:
         body = f'class Start {{\n  x: {G.render(e)}\n  y: Opt("b")\n}}'
     else:
         body = f'start = {G.render(e)}'
@@ -38,7 +41,10 @@ def describe(e, ign, where, klass):
     skip = ('skip',) + tuple(pats)
     ee = explicit(e, skip)
     auxx = 'X = ' + G.render(explicit(('alt', ('lit', 'a'), ('lit', 'ba')), skip))
-    if klass:
+    if klass == 'let':
+        bodyx = (f'class Start {{\n  let t: {G.render(("right", skip, explicit(("lit", "b"), skip)))}\n  x: {G.render(ee)}\n'
+                 f'  y: Opt({G.render(explicit(("lit", "b"), skip))})\n}}')
+    elif klass:
         bodyx = (f'class Start {{\n  x: {G.render(("right", skip, ee))}\n  y: Opt({G.render(explicit(("lit", "b"), skip))})\n}}')
     else:
         bodyx = f'start = {G.render(("right", skip, ee))}'
@@ -65,14 +71,14 @@ def jobs_for(tier, rnd):
                 strat.append(c)
     rnd.shuffle(strat)
     es = d2 + strat[:400 if tier == 'quick' else 1500]
-    variants = [(i, w, k) for i in IGNS for w in ('before', 'after') for k in (False, True)]
+    variants = [(i, w, k) for i in IGNS for w in ('before', 'after') for k in (False, True, 'let')]
     jobs, gid = [], 0
     pairs = {}
     for n, e in enumerate(es):
         vs = [variants[(n + j * 5) % len(variants)] for j in range(2 if tier == 'quick' else 4)]
         for ign, where, klass in vs:
             alpha = 'ab _' if ign == 'two' else 'ab '
-            TX = G.texts(alpha, 4, extra=(' a b ', 'a  b', 'ab  ', '  ab', ' a  a  b'))
+            TX = G.texts(alpha, 4, extra=(' a b ', 'a  b', 'ab  ', '  ab', ' a  a  b', ' b a', '  b ab', ' b  a b'))
             d, dx = describe(e, ign, where, klass)
             opts = {'ign': ign, 'where': where, 'klass': klass}
             jobs.append((gid, d, TX, dict(opts, role='ignore')))
@@ -106,6 +112,22 @@ def jobs_for(tier, rnd):
         jobs.append((gid, d, G.texts('ab- ', 4, extra=(' a', ' -a', '- a', ' - a b', 'a  b', '  b')), {'ign': 'zero-width', 'where': 'after', 'klass': 'class' in d,
                      'role': 'ignore-zero-width', 'entries': 'all', 'positions': [0, 1]}))
         gid += 1
+    # ignore patterns that can match without consuming anything (an optional, a starred rule, a lookahead): such a match
+    # skips nothing, and the run of ignorable text ends there - the parse must not spin.  (A zero-width REGEX literal inside an
+    # ignore rule is left out: literals of ignore rules skip too, so `ignore /[ ]*/` calls itself at the same position -
+    # left recursion, divergent in the specification as well.)
+    nullables = [
+        ['ignore " "?'], ['ignore Sp = " "*'], ['ignore Opt("#")', 'ignore " "'], ['ignore Sp = " "*', 'ignore Cm = "#" >> "_"?'],
+        ['ignore Expect("a")', 'ignore " "'], ['ignore Sp = (" " | "")'],
+    ]
+    TXN = G.texts('ab# ', 4, extra=(' a b ', 'a  b', 'ab  ', '  ab', ' a  a  b', 'a #b', 'a#_ b', '# a'))
+    for decls in nullables:
+        for e in shapes:
+            for where in ('before', 'after'):
+                body = f'start = {G.render(e)}'
+                parts = (decls + [body, 'X = "a" | "ba"']) if where == 'before' else ([body, 'X = "a" | "ba"'] + decls)
+                jobs.append((gid, '\n'.join(parts) + '\n', TXN, {'ign': 'nullable', 'where': where, 'klass': False, 'role': 'ignore-nullable-pattern'}))
+                gid += 1
     return jobs, pairs
 
 
